@@ -16,7 +16,7 @@ MANIFEST = {
     "category": "proof",
     "technique": "contract-based deductive verification, relational mode on the real block code: VectorNeuronNonlinear, GroupNorm / LayerNorm (scalar path through the formula contract of eqx.nn.GroupNorm, vector path: GroupNorm against the contract of _group_norm_K1, and _group_norm_K1's real body (centring, covariance, eps, inverse square root, U S U^T) around the assumed contract of jnp.linalg.eigh), average_pool and unpool executed on x and g.x for every g, learnable parameters as free symbols, eps symbolic and positive; z3 with BigSum re-indexing for group statistics; max pooling by norm (functional max_pool, GeometricImage.max_pool, MaxNormPool layer) under the no-ties pre-condition with jnp.argmax as an uninterpreted function carrying its contract and a complete case analysis over its values; bounded native stand-in for the assumed eigh / argmax contracts on every run",
     "text": "For every g in B_d (d=2 all 8, d=3 class representatives), every accepted type incl. pseudo-scalars / pseudo-vectors, learnable scales, biases and mixing weights as arbitrary reals (not the initial values), symbolic positive eps and ALL spatial extents: block(g.x) == g.block(x) for the vector-neuron nonlinearity (channels 1..2 enumerated), group / layer normalisation (channel counts per group symbolic), average pooling and nearest-neighbour unpooling, max pooling by norm (no norm ties inside a patch; functional, image and layer entry points) and the eigh whitening helper _group_norm_K1 (around the assumed eigh contract, every eigenvector sign choice). Tests use the initial parameters (bias 0, scale 1) and eps = 0.",
-    "note": "KNOWN FINDING (see known_findings.json): the scalar path of GroupNorm/LayerNorm adds a per-channel bias to pseudo-scalars (0,1); with bias != 0 the reflections break equivariance. _group_norm_K1 is verified around an ASSUMED contract of jnp.linalg.eigh (eigen-decomposition of g C g^T is (LAM, g U diag(+-1)), every sign vector enumerated; simple spectrum; covariance positive semi-definite) and additionally bounded natively; max_pool / MaxNormPool verified under the no-ties pre-condition around the assumed argmax contract; translations by multiples of the patch length bounded natively; reals not floats; sqrt / activation uninterpreted",
+    "note": "KNOWN FINDING (see known_findings.json): the scalar path of GroupNorm/LayerNorm adds a per-channel bias to pseudo-scalars (0,1); with bias != 0 the reflections break equivariance. _group_norm_K1 is verified around an ASSUMED contract of jnp.linalg.eigh (eigen-decomposition of g C g^T is (LAM, g U diag(+-1)), every sign vector enumerated; simple spectrum; covariance positive semi-definite) and additionally bounded natively; max_pool / MaxNormPool verified under the no-ties pre-condition around the assumed argmax contract; translations (every shift for normalisation / nonlinearity, multiples of the patch length for pooling) have own obligations with a symbolic shift; reals not floats; sqrt / activation uninterpreted",
 }
 FUNCTIONS = ["ml.layers.VectorNeuronNonlinear.__call__", "ml.layers.GroupNorm.__init__", "ml.layers.GroupNorm.__call__", "ml.layers.LayerNorm.__init__",
              "functional_geometric_image.norm", "functional_geometric_image.average_pool", "GeometricImage.average_pool", "GeometricImage.unpool",
@@ -71,6 +71,13 @@ def jobs(tier):
                     ts = [ts[0], ts[2]]
                 for i in range(0, len(ts), 2):
                     out.append(("gvc.props.c08", "ob_whiten", dict(D=D, groups=groups, gi=gi, ts=[list(t) for t in ts[i:i + 2]])))
+    # cyclic translations (multiples of the patch length for the pooling blocks)
+    for D in ([2] if q else [2, 3]):
+        for which in ["average_pool", "max_pool", "unpool", "VN", "LayerNorm", "GroupNorm", "_group_norm_K1"]:
+            for (k, p) in ([(1, 0)] if which == "_group_norm_K1" else [(0, 0), (1, 0)]):
+                if D == 3 and which == "max_pool":
+                    continue          # 8 x 8 argmax cases with three shifted axes: beyond the budget (bounded natively)
+                out.append(("gvc.props.c08", "ob_translation", dict(D=D, which=which, k=k, p=p)))
     # dependency: "g.x" in the statement is the library's action; the obligations use act_spec (owned by C02)
     from .common import dep_jobs
     out += dep_jobs("gvc.props.c02", lambda fn, kw: fn == "ob_entry" and kw["D"] >= 2)
@@ -287,10 +294,113 @@ def ob_maxpool(D, k, p, gi, entry="image"):
     o = guard(f"C08/{nm}/D={D},k={k},p={p},g#{gi}/ensures:equivariant", "ensures", lambda: all_paths(pre, run, post), structure)
     o["replay"] = dict(scenario="pool", D=D, k=k, p=p, op="max_pool", g=g.tolist()) if entry == "image" else dict(scenario="maxnormpool", D=D, g=g.tolist())
     obs = [o]
-    if entry == "image" and det_of(g) == -1 and k <= 1:
+    if entry == "image" and det_of(g) == -1 and k <= 1 and D == 2:
         obs.append(cover(f"C08/{nm}/D={D},k={k},p={p},g#{gi}/cover:pre", pre, structure))
         obs.append(guard(f"C08/{nm}/D={D},k={k},p={p},g#{gi}/canary:opposite-parity", "canary",
                          lambda: all_paths(pre, run, lambda res: post(res, 1 - p)), structure))
+    return obs
+
+
+def ob_translation(D, which, k=1, p=0):
+    """cyclic translations on toroidal images: pooling blocks commute with translations by multiples of the patch length
+    (pool(T_{2t} x) == T_t pool(x), unpool(T_t x) == T_{2t} unpool(x)); normalisation and the vector-neuron nonlinearity
+    commute with every translation (group statistics re-indexed by the shift)."""
+    from ..specs.act import shift_sym
+    Gm, Lm = geom(), L()
+    arr.ENUM_SMALL[0] = 3
+    pre = []
+    half = [sint(f"h{d}", pre) for d in range(D)]
+    t = [sint(f"t{d}", pre, 0) for d in range(D)]
+    for d in range(D):
+        pre.append(zi(t[d]) < zi(half[d]))
+    fine = [Atom(mk(zi(h) * 2), f"N{d}") for d, h in enumerate(half)]
+    coarse = [Atom(h, f"n{d}") for d, h in enumerate(half)]
+    t2 = [mk(zi(v) * 2) for v in t]
+    structure = dict(D=D, block=which, k=k, parity=p)
+    tens = [Atom(D) for _ in range(k)]
+    if which in ("average_pool", "max_pool", "unpool"):
+        src_sp, tin, tout = (coarse, t, t2) if which == "unpool" else (fine, t2, t)
+        X = arr.source("X", src_sp + tens)
+
+        def run():
+            lib.ARGMAX_NO_TIES[0] = True
+            try:
+                f = {"average_pool": lambda a: a.average_pool(2), "max_pool": lambda a: a.max_pool(2), "unpool": lambda a: a.unpool(2)}[which]
+                return f(Gm.GeometricImage(X, p, D, True)).data, f(Gm.GeometricImage(shift_sym(X, tin, D), p, D, True)).data
+            finally:
+                lib.ARGMAX_NO_TIES[0] = False
+
+        def post(res):
+            return arr.compare(arr.lift(res[1]), shift_sym(arr.lift(res[0]), tout, D), f"{which}(T x) vs T {which}(x)")
+    else:
+        eps = SReal(z3.Real("eps"))
+        pre.append(eps.e > 0)
+        groups = 2 if which == "GroupNorm" else 1
+        cA = Atom(mk(zi(sint("cpg", pre)) * groups), "C") if which != "VN" else Atom(2)
+        X = arr.source("X", [cA] + fine + tens)
+        sig = Gm.Signature((((k, p), cA.ext),))
+        calls = []
+
+        def whiten_stub(Dd, image_block, grp, method="eigh", eps=1e-5):
+            # contract of _group_norm_K1 w.r.t. translations (a pixel permutation): the whitened block moves with its input
+            if not calls:
+                calls.append(arr.source("WH", list(image_block.dims)))
+                return calls[0]
+            return shift_sym(calls[0], t2, D, lead=1)
+
+        def run():
+            lib.STATS.clear()
+            calls.clear()
+            bigsum.SHIFTS[:] = [(fine[d].ext, t2[d]) for d in range(D)]
+            orig = Lm.__dict__["_group_norm_K1"]
+            Lm.__dict__["_group_norm_K1"] = whiten_stub
+            try:
+                if which == "VN":
+                    layer = Lm.VectorNeuronNonlinear(sig, D, lib.ACT("relu"), eps, key=("key", 0))
+                else:
+                    layer = Lm.GroupNorm(sig, D, groups, eps) if groups > 1 else Lm.LayerNorm(sig, D, eps)
+                    if k == 1:
+                        layer.scale[(k, p)] = arr.source("SC", list(arr.lift(layer.scale[(k, p)]).dims))
+                        layer.bias[(k, p)] = arr.source("BI", list(arr.lift(layer.bias[(k, p)]).dims))
+                y0 = layer(Gm.MultiImage({(k, p): X}, D, True))
+                yt = layer(Gm.MultiImage({(k, p): shift_sym(X, t2, D, lead=1)}, D, True))
+                return y0[(k, p)], yt[(k, p)]
+            finally:
+                Lm.__dict__["_group_norm_K1"] = orig
+
+        def post(res):
+            try:
+                return arr.compare(arr.lift(res[1]), shift_sym(arr.lift(res[0]), t2, D, lead=1), f"{which}(T x) vs T {which}(x)")
+            finally:
+                bigsum.SHIFTS[:] = []
+
+    if which == "_group_norm_K1":
+        # the real whitening helper: statistics are invariant under the pixel permutation, so eigh sees the same matrix
+        def run():   # noqa: F811
+            lib.STATS.clear()
+            bigsum.SHIFTS[:] = [(fine[d].ext, t2[d]) for d in range(D)]
+            lib.STAT_MODE[0] = True
+            lib.EIGH_CTX[0] = dict(col=list(range(D)), sgn=[1] * D, t=[1] * D, calls={}, psd=True)
+            try:
+                y0 = Lm._group_norm_K1(D, X, 1, eps=eps)
+                yt = Lm._group_norm_K1(D, shift_sym(X, t2, D, lead=1), 1, eps=eps)
+                return y0, yt
+            finally:
+                lib.STAT_MODE[0] = False
+                lib.EIGH_CTX[0] = None
+
+    o = guard(f"C08/{which}/D={D},k={k},p={p}/ensures:commutes-with-cyclic-translations", "ensures", lambda: all_paths(pre, run, post), structure)
+    o["replay"] = dict(scenario="translation", D=D, block=which, k=k, p=p)
+    bigsum.SHIFTS[:] = []
+    obs = [o]
+    if which == "average_pool":
+        # canary: a translation by an ODD number of pixels does not commute with pooling
+        todd = [mk(zi(v) * 2 + 1) for v in t]
+
+        def run_bad():
+            f = lambda a: a.average_pool(2)
+            return f(Gm.GeometricImage(X, p, D, True)).data, f(Gm.GeometricImage(shift_sym(X, todd, D), p, D, True)).data
+        obs.append(guard(f"C08/{which}/D={D},k={k},p={p}/canary:odd-translation", "canary", lambda: all_paths(pre, run_bad, post), structure))
     return obs
 
 
